@@ -90,25 +90,21 @@ impl super::Protocol for Protocol {
 
     async fn write(&self, relpath: &str, content: &[u8], write_mode: WriteMode) -> Result<()> {
         let full_path = self.full_path(relpath);
-        let mut options = tokio::fs::OpenOptions::new();
-        options.write(true);
-        match write_mode {
-            WriteMode::CreateNew => {
-                options.create_new(true);
+        let path = full_path.clone();
+        let content = content.to_owned();
+        let len = content.len();
+        let result = tokio::task::spawn_blocking(move || write_file(&path, &content, write_mode))
+            .await
+            .unwrap_or_else(|join_err| Err(io::Error::other(join_err)));
+        match result {
+            Ok(()) => {
+                trace!("Wrote {len} bytes");
+                Ok(())
             }
-            WriteMode::Overwrite => {
-                options.create(true).truncate(true);
+            Err(err) => {
+                error!("Failed to write {full_path:?}: {err:?}");
+                Err(super::Error::io_error(&full_path, err))
             }
-        }
-        if let Err(err) = tokio::fs::write(&full_path, content).await {
-            error!("Failed to write {full_path:?}: {err:?}");
-            if let Err(err2) = tokio::fs::remove_file(&full_path).await {
-                error!("Failed to remove {full_path:?}: {err2:?}");
-            }
-            Err(super::Error::io_error(&full_path, err))
-        } else {
-            trace!("Wrote {} bytes", content.len());
-            Ok(())
         }
     }
 
@@ -180,6 +176,41 @@ impl super::Protocol for Protocol {
     fn local_path(&self) -> Option<PathBuf> {
         Some(self.path.clone())
     }
+}
+
+/// Write a whole file, honoring the write mode.
+///
+/// With [WriteMode::CreateNew] an existing file is never replaced, with one exception: a
+/// zero-length file, which is what an interrupted earlier write can leave behind, may be
+/// completed. If writing the content fails, the file is removed again, but only if this
+/// call created it or it held no content.
+fn write_file(path: &Path, content: &[u8], write_mode: WriteMode) -> io::Result<()> {
+    use std::io::Write;
+    let mut options = std::fs::OpenOptions::new();
+    options.write(true);
+    let mut file = match write_mode {
+        WriteMode::Overwrite => options.create(true).truncate(true).open(path)?,
+        WriteMode::CreateNew => match options.create_new(true).open(path) {
+            Ok(file) => file,
+            Err(err) if err.kind() == io::ErrorKind::AlreadyExists => {
+                match std::fs::metadata(path) {
+                    Ok(metadata) if metadata.is_file() && metadata.len() == 0 => {
+                        std::fs::OpenOptions::new().write(true).open(path)?
+                    }
+                    _ => return Err(err),
+                }
+            }
+            Err(err) => return Err(err),
+        },
+    };
+    if let Err(err) = file.write_all(content).and_then(|()| file.flush()) {
+        drop(file);
+        if let Err(err2) = std::fs::remove_file(path) {
+            error!("Failed to remove {path:?}: {err2:?}");
+        }
+        return Err(err);
+    }
+    Ok(())
 }
 
 async fn collect_tokio_dir_entry(dir_entry: tokio::fs::DirEntry) -> Option<DirEntry> {
